@@ -302,7 +302,7 @@ def run(ctx):
     _, hits = ctx.step(r11_1_2, ctx, fx, fscope, R1, R2, control=True)
     want = {'dropped': 'ctl_drop_result', 'swallowed': 'ctl_ok_result', 'unwrapped': 'ctl_unwrap_result', 'matched-bad': 'ctl_match_swallow'}
     for k, fnname in want.items():
-        ctx.check(R1 if k != 'unwrapped' else R2, fnname in hits[k], 'control-' + k, 'the rule no longer fires on the fixture\'s %s instance: checker broken' % k, kind='undecided', detail=hits[k])
+        ctx.check(R1 if k != 'unwrapped' else R2, fnname in hits[k], 'control-' + k, 'the rule no longer fires on the fixture\'s %s instance: checker broken' % k, kind='violation', detail=hits[k])
     if A.err:
         for e in A.err:
             ctx.missing('R11.3', 'anchor', e)
